@@ -553,8 +553,15 @@ def _kaldi_cases(draw):
             utts[1]["n"] = int(rate * min_dur) - 1
         for u in utts[2:]:
             u["n"] = int(rate * min_dur) + draw(st.integers(1, 40))
+    pre = draw(_pre_st)
+    if draw(st.integers(0, 11)) == 0 and comp.get("kind") == "stft":
+        # a recording of more than 2**16 samples through a pre-emphasis (the tool pre-processes in place): block-wise
+        # implementations only differ beyond their block length
+        comp = dict(comp, S=max(comp["S"], 40), L=max(comp["L"] or 0, 40))
+        utts[0]["n"] = 70001
+        pre = [{"alias": "preemphasize", "coeff": 0.97}] + pre[:1]
     return {
-        "tool": "kaldi", "rate": rate, "comp": comp, "pre": draw(_pre_st), "post": draw(_post_st), "utts": utts,
+        "tool": "kaldi", "rate": rate, "comp": comp, "pre": pre, "post": draw(_post_st), "utts": utts,
         "channel": channel, "min_duration": min_dur,
         "syntax": syn, "other_syntax": draw(st.sampled_from([None, None, "inline", "json", "yaml"])),
         "alias_key": draw(st.sampled_from(["alias", "name"])), "seed": draw(st.one_of(st.none(), st.integers(0, 1000))),
